@@ -1,5 +1,6 @@
 #[macro_use]
 mod engine;
+mod agraph;
 mod props;
 mod util;
 
